@@ -146,7 +146,11 @@ def run(ctx):
             ctx.ob("C14.R5", o.where, o.ok, o.what, key=o.key, loc=o.loc, detail=o.detail)
     ctx.floor("C14.R5", 12)
     from . import C04
-    C04.shared_obligations(ctx, "C14.R6", {"RawCopy", "Checksum", "Pointer", "Tell", "Prefixed", "FixedSized"})
+    C04.shared_obligations(ctx, "C14.R6", {"RawCopy", "Checksum", "Pointer", "Tell", "Prefixed", "FixedSized", "Struct", "Sequence", "FocusedSeq"})
+    # Checksum(..., this.payload.data): what a RawCopy member built must be in the scope of the members after it (shared with C07.R4)
+    from . import C07
+    C07.member_store_checks(ctx, "C14.R7")
+    ctx.floor("C14.R7", 20)
     ctx.floor("C14.R6", 6)
 
     # positive control: length = offset2
